@@ -56,6 +56,33 @@ def header_or_nil(msg: Message, field: str) -> bytes:
 
 ############################################################################
 #
+def quote_string(value: bytes) -> bytes:
+    r"""
+    Format `value` as an IMAP `string`: a quoted string with `\` and `"`
+    escaped or, if it contains characters that are not allowed in a quoted
+    string (CR, LF, NUL), a literal.
+    """
+    if b"\r" in value or b"\n" in value or b"\0" in value:
+        return b"{%d}\r\n" % len(value) + value
+    return b'"' + value.replace(b"\\", b"\\\\").replace(b'"', b'\\"') + b'"'
+
+
+############################################################################
+#
+def quote_str(value: str) -> bytes:
+    """
+    `quote_string()` for a `str`: encoded as latin-1 if possible, otherwise
+    as UTF-8.
+    """
+    try:
+        raw = value.encode("latin-1")
+    except UnicodeEncodeError:
+        raw = value.encode("utf-8")
+    return quote_string(raw)
+
+
+############################################################################
+#
 def encode_header(hdr: str) -> bytes:
     """
     Attempts to encode a header as bytes. It will first attempt to simply
@@ -76,7 +103,7 @@ def encode_header(hdr: str) -> bytes:
             result = Header(hdr).encode(maxlinelen=0).encode("latin-1")
         except UnicodeEncodeError:
             result = hdr.encode("latin-1", errors="replace")
-    return b'"' + result + b'"'
+    return quote_string(result)
 
 
 ########################################################################
@@ -545,19 +572,19 @@ class FetchAtt:
         for value in values:
             if "," in value:
                 for lng in value.split(","):
-                    langs.add(f'"{lng.strip()}"')
+                    langs.add(lng.strip())
             elif ";" in value:
                 for lng in value.split(";"):
-                    langs.add(f'"{lng.strip()}"')
+                    langs.add(lng.strip())
             else:
-                langs.add(f'"{value.strip()}"')
+                langs.add(value.strip())
 
         if not langs:
             return b"NIL"
         elif len(langs) == 1:
-            return (list(langs)[0]).encode("latin-1")
+            return quote_str(list(langs)[0])
         else:
-            return (f"({' '.join(sorted(langs))})").encode("latin-1")
+            return b"(" + b" ".join(quote_str(x) for x in sorted(langs)) + b")"
 
     ##################################################################
     #
@@ -609,13 +636,8 @@ class FetchAtt:
 
         results = []
         for k, v in params.items():
-            results.append(f'"{k.upper()}" "{v}"')
-
-        try:
-            res = (f"({' '.join(results)})").encode("latin-1")
-        except UnicodeEncodeError:
-            res = (f"({' '.join(results)})").encode()
-        return res
+            results.append(quote_str(k.upper()) + b" " + quote_str(str(v)))
+        return b"(" + b" ".join(results) + b")"
 
     ####################################################################
     #
@@ -653,16 +675,14 @@ class FetchAtt:
 
         params = msg["Content-Disposition"].params  # type: ignore[union-attr]
         if not params:
-            return (f'("{cd}" NIL)').encode("latin-1")
+            return b"(" + quote_str(cd) + b" NIL)"
 
         result = []
         for param, value in params.items():
-            result.append(f'"{param.upper()}" "{value}"')
-        res = f'("{cd.upper()}" ({" ".join(result)}))'
-        try:
-            return res.encode("latin-1")
-        except UnicodeEncodeError:
-            return res.encode("utf-8")
+            result.append(
+                quote_str(param.upper()) + b" " + quote_str(str(value))
+            )
+        return b"(" + quote_str(cd.upper()) + b" (" + b" ".join(result) + b"))"
 
     #######################################################################
     #
@@ -723,9 +743,9 @@ class FetchAtt:
             # doing a 'body' not a 'bodystructure' then we have
             # everything we need to return a result.
             #
-            subtype = (msg.get_content_subtype().upper()).encode("latin-1")
+            subtype = quote_str(msg.get_content_subtype().upper())
             if not self.ext_data:
-                res = b"(" + b"".join(sub_parts) + b'"' + subtype + b'")'
+                res = b"(" + b"".join(sub_parts) + subtype + b")"
                 return res
 
             # Get the extension data and add it to our response.
@@ -737,9 +757,9 @@ class FetchAtt:
             res = (
                 b"("
                 + b"".join(sub_parts)
-                + b' "'
+                + b" "
                 + subtype
-                + b'" '
+                + b" "
                 + b" ".join(ext_data)
                 + b")"
             )
@@ -783,8 +803,8 @@ class FetchAtt:
         #
         maintype = msg.get_content_maintype()
         msg_subtype = msg.get_content_subtype()
-        result.append((f'"{maintype.upper()}"').encode("latin-1"))
-        result.append((f'"{msg_subtype.upper()}"').encode("latin-1"))
+        result.append(quote_str(maintype.upper()))
+        result.append(quote_str(msg_subtype.upper()))
 
         result.append(self.body_parameters(msg))  # type: ignore[arg-type]
 
@@ -796,7 +816,7 @@ class FetchAtt:
             if "Content-Transfer-Encoding" in msg
             else "7BIT"
         )
-        result.append((f'"{cte}"').encode("latin-1"))
+        result.append(quote_str(str(cte)))
 
         # Body size
         payload = msg_as_bytes(msg, render_headers=False)
